@@ -85,6 +85,24 @@ def check_sink_spaces(ctx, rep, rule, sinks, classes, only=None):
             rep.finding(rule, ev.func, ev.text(), ev.line,
                         f"{c} user code is called without a recognisable point argument")
             continue
+        if ev.lam is not None and isinstance(e, ast.Name) and e.id in [a.arg for a in ev.lam.args.posonlyargs + ev.lam.args.args]:
+            # wrapper lambda: the point is the lambda's own parameter, the
+            # obligation is carried by whoever calls the wrapper
+            idx = [a.arg for a in ev.lam.args.posonlyargs + ev.lam.args.args].index(e.id)
+            callers = [c for evs in ctx.cg.events.values() for c in evs
+                       if any(t.kind == "lambda" and t.detail is ev.lam for t in c.targets)]
+            bad = False
+            for c in callers:
+                if isinstance(c.node, ast.Call) and len(c.node.args) > idx:
+                    o2 = v.origins(c.node.args[idx], c.func)
+                    if not is_full(o2):
+                        bad = True
+                        rep.bad(rule, desc)
+                        rep.finding(rule, c.func, c.text(), c.line,
+                                    f"wrapper around {c} user code is called with `{norm(c.node.args[idx])}` which is not a build_x result ({{{fmt(o2)}}})")
+            if not bad:
+                rep.ok(rule, desc + " - wrapper lambda; obligation carried by its call sites")
+            continue
         origs = v.origins(e, ev.func)
         if is_full(origs):
             rep.ok(rule, desc + f" `{norm(e)}` <- build_x")
